@@ -150,6 +150,14 @@ CHECKS = {
           "definition it shares (E2 execution vs PyMTL).",
           "Two known findings (factory classes and parameter values sharing a module name) are tolerated by exact signature.",
           "DESIGN.md 3/C13"),
+  "C10": ("exploration",
+          "property-based testing (Hypothesis): sloppy-width update blocks; per-AST-node probes compare the RTLIR type checker's static widths with run-time widths on the simulator",
+          "Blocks with independently perturbed operand widths, literals of every size, casts, shifts, temporaries and loop variables go through "
+          "BehavioralRTLIRGenPass + TypeCheckPass; for accepted blocks every expression node is probed during execution: Bits values must "
+          "have the static width, int values must fit it, and no bitwidth/truncation error may be raised (unless the block has an exempt "
+          "cast/shift). Rejections are counted.",
+          "Negative int values and the exclusive stop bound of slices are left open; one known finding (constant folding drops explicit widths).",
+          "DESIGN.md 3/C10"),
 }
 
 NOT_YET = {}
